@@ -9,8 +9,8 @@ SPEC = {
                           "sym_cverify_iff", "sumSig_bytes_roundtrip", "cSig_bytes_roundtrip", "gen_unknowns", "gen_sizes", "gen_instantiations",
                           "keyBytes_length"],
     "translators": [translate_kes],
-    "streams": [{"name": "kes", "quick": 28, "thorough": 420}],
-    "rule": "a case = one key: construction alternates sum / compact sum, depth cycles through 1..7 (quick: 1,2,3,4 twice then 5,6,7,3,4,5), "
+    "streams": [{"name": "kes", "quick": 20, "thorough": 420}],
+    "rule": "a case = one key: construction alternates sum / compact sum, depth cycles through 1..7 (quick: 1..7 then 2,3,4,1,2,3,4), "
             "random 32-byte seed (all-zero and all-ff included); depths 1..4 (thorough: 1..5): at EVERY period get_period, to_pk, sign a random "
             "message, signature bytes round trip, verify at the own period and at EVERY other in-range period, one of {other message, other key, "
             "bit-flipped signature, truncated signature}; depths 5..7: every period is reached by update (half of the cases stop at a random "
